@@ -2,6 +2,7 @@
 import TakVerif.Driver.Ser
 import TakVerif.Model.Move
 import TakVerif.Spec.Rules
+import TakVerif.Spec.Inv
 
 namespace Tak.Driver.Move
 open Tak.Ser
@@ -14,7 +15,23 @@ def showResult : Except Err Pos → String
   `apply <pos7> <move4>`   → `ok <pos>` | `illegal` | `crash <cls>`     (Impl.move)
   `rules <pos7> <move4>`   → `legal <pos>` | `illegal`                  (Rules.Legal / Rules.result)
   `wf <pos7>`              → `true` | `false`
+  C04 (Spec/Inv.lean):
+  `inv <size> <pieces> <caps> <pos7>`  → `true` | `false:<first failing clause of Inv>`
+  `topsonly <pos7>`        → `true` | `false`
+  `opening1 <pos7>`, `opening2 <pos7>` → `true` | `false`               (Opening1 / Opening2)
+  `plyturn <accepted> <W|B> <pos7>`    → `true` | `false`               (PlyTurnOK)
+  `fromconfig <size> <pieces> <caps>`  → `<pos>`                        (Pos.fromConfig)
+  `fromsquares <size> <pieces> <caps> <ply> <board>` → `ok <pos>` | `none`   (Pos.fromSquares)
+  `defaults <size>`        → `<pieces> <caps>`                          (defaultPieces / defaultCaps)
 -/
+def parseConfig : List String → Option Config
+  | [n, pc, cp] => do
+    let n ← n.toNat?
+    let pc ← pc.toInt?
+    let cp ← cp.toInt?
+    pure ⟨n, pc, cp⟩
+  | _ => none
+
 def handle : List String → Option String
   | "apply" :: rest => do
     let p ← parsePos (rest.take 7)
@@ -27,6 +44,39 @@ def handle : List String → Option String
   | "wf" :: rest => do
     let p ← parsePos rest
     pure (toString (decide p.WF))
+  | "inv" :: rest => do
+    let cfg ← parseConfig (rest.take 3)
+    let p ← parsePos (rest.drop 3)
+    pure (match Inv.firstFailure cfg p with
+      | none => "true"
+      | some clause => s!"false:{clause}")
+  | "topsonly" :: rest => do
+    let p ← parsePos rest
+    pure (toString (decide (TopsOnly p)))
+  | "opening1" :: rest => do
+    let p ← parsePos rest
+    pure (toString (decide (Opening1 p)))
+  | "opening2" :: rest => do
+    let p ← parsePos rest
+    pure (toString (decide (Opening2 p)))
+  | "plyturn" :: n :: c :: rest => do
+    let n ← n.toNat?
+    let c ← (if c = "W" then some Color.white else if c = "B" then some Color.black else none)
+    let p ← parsePos rest
+    pure (toString (decide (PlyTurnOK n c p)))
+  | "fromconfig" :: rest => do
+    let cfg ← parseConfig rest
+    pure (showPos (Pos.fromConfig cfg))
+  | ["fromsquares", n, pc, cp, ply, b] => do
+    let cfg ← parseConfig [n, pc, cp]
+    let ply ← ply.toInt?
+    let b ← parseBoard b
+    pure (match Pos.fromSquares cfg b ply with
+      | some p => s!"ok {showPos p}"
+      | none => "none")
+  | ["defaults", n] => do
+    let n ← n.toNat?
+    pure s!"{defaultPieces n} {defaultCaps n}"
   | _ => none
 
 end Tak.Driver.Move
